@@ -174,9 +174,26 @@ def histories(draw, tier):
     last = None
     written = []
     for _ in range(nsteps):
-        kind = draw(st.sampled_from(["w1", "w1", "wd", "wd", "wl", "dup", "reopen", "newreader"]))
-        if kind == "dup" and not written:
+        kind = draw(st.sampled_from(["w1", "w1", "w1", "wd", "wd", "wd", "wl", "wl", "dup", "dup", "reopen", "newreader", "newreader", "probe", "probe", "wback"]))
+        if kind in ("dup", "wback") and not written:
             kind = "w1"
+        if kind == "wback":
+            # late (back-filled) metadata: an index below everything written so far, in the first file or in an earlier one
+            lo = min(written)
+            if draw(st.integers(0, 1)):
+                k = lo - draw(st.integers(1, 5))
+            else:
+                j = ((lo * p["d"]) // p["n"]) // p["C"] - draw(st.sampled_from([0, 1, 1, 2, 61]))
+                k = M.boundary_index(max(0, j), p["n"], p["d"], p["C"]) + draw(st.sampled_from([0, 0, 1]))
+            if k < 0 or k >= lo:
+                kind = "probe"
+            else:
+                written.append(k)
+                if not any(s_["s"] == "probe" for s_ in steps):
+                    steps.append({"s": "probe"})  # some reader has looked at the channel before the late sample arrives ...
+                steps.append({"s": "wback", "k": k, "data": draw(sample_dict(specs))})
+                steps.append({"s": "probe"})      # ... and looks again afterwards
+                continue
         if kind == "w1":
             k = next_index(draw, p, last, None)
             last = k
@@ -237,7 +254,9 @@ def histories(draw, tier):
         if qk == "ffill":
             q["method"] = draw(st.sampled_from(["ffill", "pad"]))
         queries.append(q)
-    return {"p": p, "specs": specs, "steps": steps, "queries": queries}
+    # how sample indices are passed to writer and reader: Python ints, or the numpy integers that index arithmetic yields
+    at = draw(st.sampled_from(["int", "int", "i64", "u64"]))
+    return {"p": p, "specs": specs, "steps": steps, "queries": queries, "at": at}
 
 
 def strategy(tier):
@@ -302,11 +321,16 @@ def run_case(case, visible_hook=None):
             res.fail(sig, detail)
 
     nt = False
+    IT = {"int": int, "i64": np.int64, "u64": np.uint64}[case.get("at", "int")]
+
+    def TL(ks):
+        return [int(k) for k in ks] if IT is int else np.array(ks, dtype=IT)
+
     with rfharness.scratch("c12") as top:
         md = os.path.join(top, "md")
         os.makedirs(md)
         try:
-            w = drf.DigitalMetadataWriter(md, S, C, n, d, p["prefix"])
+            w = M.open_writer(md, S, C, n, d, p["prefix"], p.get("ptype", "int"))
         except Exception as e:
             res.fail("writer-open", "%s: %s" % (type(e).__name__, e))
             return res
@@ -315,20 +339,34 @@ def run_case(case, visible_hook=None):
             res.evaluations += 1
             kind = st_["s"]
             try:
-                if kind == "w1":
+                if kind == "probe":
+                    # readers that stay open look at the channel in the middle of the history (whatever they remember from
+                    # it must not outlive the next write)
+                    if not readers:
+                        readers.append(drf.DigitalMetadataReader(md))
+                    if model:
+                        ka = sorted(model)
+                        for r in readers:
+                            gb = tuple(int(x) for x in r.get_bounds())
+                            if gb != (ka[0], ka[-1]):
+                                fail("bounds", "step %d: get_bounds %r expected %r" % (si, gb, (ka[0], ka[-1])))
+                            check_read(res, lambda s_, dd: fail("latest-" + s_, dd), "step %d read_latest()" % si, r.read_latest(), model, [ka[-1]])
+                            check_read(res, lambda s_, dd: fail("ffill-" + s_, dd), "step %d read(%d,%d,method='ffill')" % (si, ka[0], ka[0]),
+                                       r.read(ka[0], ka[0], method="ffill"), model, [ka[0]])
+                elif kind in ("w1", "wback"):
                     obj = {k: M.decode(v) for k, v in st_["data"].items()}
                     exp = distribute(obj, 1)[0]
-                    w.write(st_["k"], obj)
+                    w.write(IT(st_["k"]), obj)
                     model[st_["k"]] = normalise_obj(exp)
                 elif kind == "wd":
                     obj = {k: M.decode(v) for k, v in st_["data"].items()}
                     per = distribute(obj, len(st_["ks"]))
-                    w.write(st_["ks"], obj)
+                    w.write(TL(st_["ks"]), obj)
                     for k, e in zip(st_["ks"], per):
                         model[k] = normalise_obj(e)
                 elif kind == "wl":
                     objs = [{k: M.decode(v) for k, v in dd.items()} for dd in st_["data"]]
-                    w.write(st_["ks"], objs)
+                    w.write(TL(st_["ks"]), objs)
                     for k, o in zip(st_["ks"], objs):
                         model[k] = normalise_obj(o)
                 elif kind == "dup":
@@ -349,7 +387,7 @@ def run_case(case, visible_hook=None):
                         if x not in model and len(r.read(x, x)):
                             fail("duplicate-batch-wrote-later-sample", "index %d written although the batch was refused at its first element" % x)
                 elif kind == "reopen":
-                    w = drf.DigitalMetadataWriter(md, S, C, n, d, p["prefix"])
+                    w = M.open_writer(md, S, C, n, d, p["prefix"], p.get("ptype", "int"))
                 elif kind == "newreader":
                     readers.append(drf.DigitalMetadataReader(md))
             except Exception as e:
@@ -375,11 +413,11 @@ def run_case(case, visible_hook=None):
                     nt = True
             try:
                 if q["q"] == "read":
-                    check_read(res, fail, "read(%d,%d)" % (a, b), r.read(a, b), model, inr)
+                    check_read(res, fail, "read(%d,%d)" % (a, b), r.read(IT(a), IT(b)), model, inr)
                 elif q["q"] == "single":
-                    check_read(res, fail, "read(%d)" % a, r.read(a), model, [k for k in keys_all if k == a])
+                    check_read(res, fail, "read(%d)" % a, r.read(IT(a)), model, [k for k in keys_all if k == a])
                 elif q["q"] in ("cols", "colstr"):
-                    check_read(res, fail, "read(%d,%d,columns=%r)" % (a, b, q["columns"]), r.read(a, b, columns=q["columns"]), model, inr, q["columns"])
+                    check_read(res, fail, "read(%d,%d,columns=%r)" % (a, b, q["columns"]), r.read(IT(a), IT(b), columns=q["columns"]), model, inr, q["columns"])
                 elif q["q"] == "ffill":
                     prev = [k for k in keys_all if k <= a]
                     exp = ([prev[-1]] if prev else []) + [k for k in keys_all if a < k <= b]
@@ -388,7 +426,7 @@ def run_case(case, visible_hook=None):
                         if any(k > prev[-1] and M.exact_file_ts(k, n, d, C) == T for k in keys_all):
                             nt = True
                     check_read(res, lambda s, dd: fail("ffill-" + s, dd), "read(%d,%d,method=%r)" % (a, b, q["method"]),
-                               r.read(a, b, method=q["method"]), model, exp)
+                               r.read(IT(a), IT(b), method=q["method"]), model, exp)
                 elif q["q"] == "latest":
                     check_read(res, lambda s, dd: fail("latest-" + s, dd), "read_latest()", r.read_latest(), model, [keys_all[-1]])
                 elif q["q"] == "bounds":
